@@ -4,7 +4,8 @@
 set -e
 cd "$(dirname "$0")"
 export GOFLAGS=-mod=mod GOPROXY=off GOSUMDB=off GOTOOLCHAIN=local
-(cd lean && lake build)
+mods=$(cd lean && ls GoSSE/Props/*.lean | sed 's/\.lean$//; s#/#.#g')
+(cd lean && lake build gosse-model $mods)
 (cd harness && go build -tags verif -o harness .)
-if [ -d extract ]; then (cd extract && go build -o extract .); fi
+if [ -f extract/main.go ]; then (cd extract && go build -o extract .); fi
 echo setup-ok
